@@ -5,7 +5,7 @@
 
 enum { G_LIFE = 1, G_REG = 2, G_MSG = 4, G_SUB = 8, G_PILL = 16, G_ARM = 32, G_CTX = 64, G_BATCH = 128, G_STASH = 256, G_BECOME = 512,
        G_SRC = 1024, G_ENV = 2048, G_SYS = 4096, G_REFS = 8192, G_FAULT = 16384, G_TICK = 32768, G_ILLEGAL = 65536, G_AUTOFREE = 131072,
-       G_QUIT = 262144, G_CTXCALL = 524288, G_PRIO = 1048576, G_BCAST = 2097152, G_BUCKET = 4194304, G_READY = 8388608, G_BADPARAM = 16777216, G_EPOLLFAULT = 33554432, G_CTLFAULT = 67108864, G_ENVX = 134217728 };
+       G_QUIT = 262144, G_CTXCALL = 524288, G_PRIO = 1048576, G_BCAST = 2097152, G_BUCKET = 4194304, G_READY = 8388608, G_BADPARAM = 16777216, G_EPOLLFAULT = 33554432, G_CTLFAULT = 67108864, G_ENVX = 134217728, G_SUBDUP = 268435456, G_REREG = 536870912 };
 typedef struct {
     const char *prop; int nmods; unsigned groups, rules; int maxdev;
     const char *prelude;                 /* hex ops applied at reset (not counted in depth) */
@@ -16,7 +16,7 @@ typedef struct {
     unsigned armcbs;                     /* bitmask over CB_* that can be armed */
     unsigned pats, topics;               /* bitmask of subscription patterns / publish topics */
     unsigned kinds;                      /* bitmask of source kinds (G_SRC) */
-    unsigned srcflags;                   /* bitmask of source flag combinations offered: bit f = flags value f (1 AUTOCLOSE, 2 ONESHOT, 4 DUP) */
+    unsigned srcflags;                   /* bitmask of source flag combinations offered: bit f = flags value f (1 AUTOCLOSE, 2 ONESHOT, 4 DUP, 8 AUTOFREE user data) */
     int keylimit;                        /* keys per source kind (0 = the whole menu) */
 } profile_t;
 static profile_t P;
@@ -69,6 +69,10 @@ static int enabled_ops(op_t *o, int max) {
                     EMIT(O_SUB, s, p, PR_NORM);
                     if (P.groups & G_PRIO) { EMIT(O_SUB, s, p, PR_LOW); EMIT(O_SUB, s, p, PR_HIGH); }
                 }
+                if (P.groups & G_SUBDUP) {            /* M_SRC_DUP topics, and re-subscription with other flags (replacement path) */
+                    EMIT(O_SUB, s, p, PR_NORM | 16); EMIT(O_SUB, s, p, PR_HIGH | 16); EMIT(O_SUB, s, p, PR_NORM | 32); if (m->sub[p].present && m->sub[p].af) { EMIT(O_SUB, s, p, m->sub[p].prio | (m->sub[p].dup ? 16 : 0) | 32 | 64); EMIT(O_SUB, s, p, (m->sub[p].prio == PR_NORM ? PR_HIGH : PR_NORM) | 32 | 64); }
+                    if (m->sub[p].present && !ill) EMIT(O_SUB, s, p, m->sub[p].prio == PR_NORM && !m->sub[p].dup ? PR_HIGH : PR_NORM);
+                }
                 if (m->sub[p].present || ill) EMIT(O_UNSUB, s, p);
             }
         }
@@ -82,9 +86,10 @@ static int enabled_ops(op_t *o, int max) {
                 if (kd == K_FD && !UFD[key].open_rd) continue;
                 if (kd == K_TASK && (st == S_RUNNING || st == S_ZOMBIE)) continue;          /* a task would start running on a pool thread: kept out of the sequential world */
                 if (idx >= 0 && kd == K_FD && (m->src[idx].flags & 4)) continue;
-                if (idx < 0 || ill) for (int f = 0; f < 8; f++) if (P.srcflags & (1u << f)) {
+                if (idx < 0 || ill || (P.groups & G_REREG)) for (int f = 0; f < 16; f++) if (P.srcflags & (1u << f)) {      /* G_REREG: a present key is registered again (must fail with EEXIST and change nothing) */
                     if (idx >= 0 && (f & 4)) continue;
                     if ((f & 5) && kd != K_FD) continue;
+                    if ((f & 8) && kd != K_FD && kd != K_TMR) continue;      /* auto-free user data: one code path for all kinds */
                     if ((P.groups & G_ENVX) && kd >= K_SGN && kd <= K_PID) { int others = 0; for (int t = 0; t < NM; t++) if (t != s && find_src(t, kd, key) >= 0) others = 1; if (others) continue;      /* one watcher per signal/path/pid: a signal is consumed by the first reader */
                         if (kd == K_PID && (!(f & 2) || child_dead[key])) continue; }      /* an exited process stays readable for ever: one-shot only */
                     if (kd == K_FD) { int others = 0, granted = 0; for (int t = 0; t < NM; t++) for (int i = 0; i < MAXSRC; i++) if (MD[t].src[i].present && MD[t].src[i].kind == K_FD && MD[t].src[i].key == key) { others++; granted |= MD[t].src[i].flags & 1; }
@@ -162,14 +167,14 @@ static void fmt_op(op_t op, char *b, size_t cap) {
     case O_PUB: snprintf(b, cap, "publish(%s,\"%s\"%s)", A, op.b < NTOPIC ? TOPIC[op.b] : "?", op.d ? ",AUTOFREE" : ""); break;
     case O_BCAST: snprintf(b, cap, "broadcast(%s%s)", A, op.d ? ",AUTOFREE" : ""); break;
     case O_PILL: snprintf(b, cap, "poisonpill(%s->%s)", A, B); break;
-    case O_SUB: snprintf(b, cap, "subscribe(%s,\"%s\",%s%s)", A, op.b < NPAT ? PAT[op.b] : "?", prn[op.d & 3], (op.d & 4) ? ",ONESHOT" : ""); break;
+    case O_SUB: snprintf(b, cap, "subscribe(%s,\"%s\",%s%s%s%s)", A, op.b < NPAT ? PAT[op.b] : "?", prn[op.d & 3], (op.d & 4) ? ",ONESHOT" : "", (op.d & 16) ? ",DUP" : "", (op.d & 64) ? ",AUTOFREE(same block)" : (op.d & 32) ? ",AUTOFREE" : ""); break;
     case O_UNSUB: snprintf(b, cap, "unsubscribe(%s,\"%s\")", A, op.b < NPAT ? PAT[op.b] : "?"); break;
     case O_BECOME: snprintf(b, cap, "become(%s,h%d)", A, op.b); break;
     case O_UNBECOME: snprintf(b, cap, "unbecome(%s)", A); break;
     case O_BATCH_SIZE: snprintf(b, cap, "set_batch_size(%s,%zu)", A, BSZ[op.b & 3]); break;
     case O_BATCH_TMO: snprintf(b, cap, "set_batch_timeout(%s,%luns)", A, (unsigned long)TMO[op.b % 3]); break;
     case O_UNSTASH: snprintf(b, cap, "unstash(%s,%zu)", A, UNST[op.b % 5]); break;
-    case O_SRC_REG: snprintf(b, cap, "src_register(%s,%s#%d%s%s%s)", A, KN[(op.b >> 4) % NKIND], op.b & 15, (op.d & 1) ? ",AUTOCLOSE" : "", (op.d & 2) ? ",ONESHOT" : "", (op.d & 4) ? ",DUP" : ""); break;
+    case O_SRC_REG: snprintf(b, cap, "src_register(%s,%s#%d%s%s%s%s)", A, KN[(op.b >> 4) % NKIND], op.b & 15, (op.d & 1) ? ",AUTOCLOSE" : "", (op.d & 2) ? ",ONESHOT" : "", (op.d & 4) ? ",DUP" : "", (op.d & 8) ? ",AUTOFREE" : ""); break;
     case O_SRC_DEREG: snprintf(b, cap, "src_deregister(%s,%s#%d)", A, KN[(op.b >> 4) % NKIND], op.b & 15); break;
     case O_BUCKET: snprintf(b, cap, "set_tokenbucket(%s,rate=%d,burst=%d)", A, TBCFG[op.b % NTBCFG].rate, TBCFG[op.b % NTBCFG].burst); break;
     case O_ARM: snprintf(b, cap, "arm(%s.%s: %s %d)", A, CBN[(op.b >> 5) & 3], AN[(op.b & 31) < A_MAX ? (op.b & 31) : 0], op.d); break;
@@ -192,7 +197,7 @@ static void canon(char *b, size_t cap) {
     for (int s = 0; s < NM; s++) { mod_t *m = &MD[s];
         AP("M%d:%d%d%d%d%d%d:L%x:", s, m->present, m->st, m->extra, m->evalmode, m->startret, m->flagsidx, m->present ? m->life : 0);
         for (int k = 0; k < NCB; k++) AP("%d.%d,", m->armed[k].act, m->armed[k].arg);
-        AP("s"); for (int q = 0; q < NPAT; q++) if (m->sub[q].present) AP("%d%d%d%d,", q, m->sub[q].prio, m->sub[q].oneshot, m->sub[q].upver);
+        AP("s"); for (int q = 0; q < NPAT; q++) if (m->sub[q].present) AP("%d%d%d%d%d%d,", q, m->sub[q].prio, m->sub[q].oneshot, m->sub[q].upver, m->sub[q].dup, m->sub[q].af);
         AP("m"); for (int k = 0; k < m->nmb; k++) { msg_t *g = &MSG[m->mb[k].msg]; AP("%d.%d.%d.%d.%d.%x.%d,", g->sender + 1, g->topic, g->sys, g->autofree, m->mb[k].optional, m->mb[k].pats, g->may_vanish * 2 + g->rc_neg); }
         AP("b%zu.%d.%d.%d.%d", m->batch_size, m->batch_tmo, m->batch_fired, m->ever_batched, m->batch_due != 0); AP("u%d", m->ba_unsure);
         AP("st"); for (int k = 0; k < m->nst; k++) { evrec_t *r = &EV[m->stash[k]]; AP("%d.%d,", r->kind, r->kind == 0 ? MSG[r->msg].sender + 1 : r->key); }
@@ -254,6 +259,7 @@ static void teardown(void) {
     for (int i = 0; i < nmsg; i++) if (MSG[i].used && MSG[i].autofree && lg_is_live((void *)MSG[i].payload)) lg_free((void *)MSG[i].payload);
     if (lg_live) { char sz[120] = ""; int p2 = 0, k = 0; for (int i = 0; i < LG_CAP && k < 6; i++) if (lg_tab[i].p) { p2 += snprintf(sz + p2, sizeof sz - p2, " %zuB(#%u)", lg_tab[i].sz, lg_tab[i].seq); k++; }
         vfail("LG.mem", "LG.mem|leak", "%d library allocations outstanding after the context was deregistered and every user reference dropped (sizes:%s)", lg_live, sz); }
+    if (shim_regex_live) vfail("LG.mem", "LG.mem|regex-leak", "%d compiled regular expression(s) of the library never released (regcomp without regfree)", shim_regex_live);
     if (ON(R_FD) && shim_open_lib_fds()) { int fd = -1; for (int i = 0; i < SHIM_MAXFD; i++) if (shim_fd[i].st == FD_LIB_OPEN && !shim_fd[i].user) { fd = i; break; }
         vfail("LG.fd", "LG.fd|leak", "%d descriptors opened by the library are still open after teardown (e.g. fd %d, kind %d)", shim_open_lib_fds(), fd, shim_fd[fd].kind); }
 }
